@@ -447,7 +447,7 @@ def analyse(repo):
             if entry.endswith(".load_data") and org == ["?"]:
                 org = [what.split("(")[-1].rstrip(".=)") .replace("arg 1", "y")]
             rows.append({"entry": entry, "arg": "+".join(org) + (f" [{gtxt}]" if gtxt else ""), "sink": what,
-                         "expr": ast.unparse(expr), "conv": cls})
+                         "expr": ast.unparse(expr).replace(".to_numpy()", ".values"), "conv": cls})   # one spelling in the emitted comment
     # structural facts that make the classification meaningful
     t = trees[TO]
     rg = find_func(t, "_reformat_and_group_data")
